@@ -169,7 +169,9 @@ func genE4History(t *rapid.T, o e4GenOpts) e4Case {
 				kinds = append(kinds, "remove", "remove")
 			}
 			if o.attrs {
-				kinds = append(kinds, "chmod", "chown", "chtimes", "chmod", "chown", "chtimes")
+				for k := 0; k < 5; k++ {
+					kinds = append(kinds, "chmod", "chown", "chtimes")
+				}
 			} else {
 				kinds = append(kinds, "chmod", "chown", "chtimes")
 			}
@@ -323,6 +325,7 @@ func e4PopName(op e4Op, j int) string {
 // ---------- executor ----------
 
 type e4Run struct {
+	doFrame           bool // C19: changing one attribute of one node changes nothing else
 	guardOnly         bool // C03: only containment is judged; a panic/hang aborts the history with a note
 	aborted           bool
 	c                 e4Case
@@ -469,6 +472,11 @@ func (x *e4Run) openWrite(p string, flag int, seek int64, data []byte, readBack 
 			if n != len(data) {
 				outErr = fmt.Errorf("short write %d of %d", n, len(data))
 				return nil
+			}
+		}
+		if n := x.m.Lookup(p); n != nil && len(data) > 0 {
+			if mm := e4MetaStore[n]; mm != nil {
+				mm.timesSet = false // a content write may legitimately move the timestamps
 			}
 		}
 		if readBack && x.doModel {
@@ -978,7 +986,88 @@ func (x *e4Run) run() {
 	}
 }
 
+// statAll renders every node's observable metadata as a string per path.
+func (x *e4Run) statAll() map[string]string {
+	out := map[string]string{}
+	x.m.Walk(func(p string, n *model.Node) {
+		if x.r.Failed() || x.aborted || p == "lost+found" {
+			return
+		}
+		if n.Link {
+			var tgt string
+			x.call("ReadLink "+p, func() error {
+				var err error
+				tgt, err = x.fs.ReadLink(p)
+				return err
+			})
+			out[p] = "link->" + tgt
+			return
+		}
+		var fi iofs.FileInfo
+		err, ok := x.call("Stat "+p, func() error {
+			var err error
+			fi, err = x.fs.Stat(p)
+			return err
+		})
+		if !ok || err != nil {
+			out[p] = fmt.Sprintf("stat-error:%v", err)
+			return
+		}
+		st, _ := fi.Sys().(*ext4.StatT)
+		if st == nil {
+			out[p] = "no-sys"
+			return
+		}
+		out[p] = fmt.Sprintf("dir=%v|size=%d|mode=%04o|uid=%d|gid=%d|m=%d.%09d|a=%d.%09d|c=%d.%09d", fi.IsDir(), fi.Size(), modeBits(fi.Mode()), st.UID, st.GID,
+			fi.ModTime().Unix(), fi.ModTime().Nanosecond(), st.AccessTime.Unix(), st.AccessTime.Nanosecond(), st.CreateTime.Unix(), st.CreateTime.Nanosecond())
+	})
+	return out
+}
+
 func (x *e4Run) exec(op e4Op) {
+	if x.doFrame && (op.K == "chmod" || op.K == "chown" || op.K == "chtimes") && x.m.Lookup(op.P) != nil {
+		before := x.statAll()
+		x.execOp(op)
+		if x.r.Failed() || x.aborted {
+			return
+		}
+		after := x.statAll()
+		for p, b := range before {
+			if p != op.P && after[p] != b {
+				x.fail("frame:"+op.K, "%s(%q) changed another node: %q was %s, now %s", op.K, op.P, p, b, after[p])
+				return
+			}
+		}
+		// the target: only the fields the call names may change
+		fieldsOf := func(s string) map[string]string {
+			m := map[string]string{}
+			for _, kv := range strings.Split(s, "|") {
+				if i := strings.Index(kv, "="); i > 0 {
+					m[kv[:i]] = kv[i+1:]
+				}
+			}
+			return m
+		}
+		allowed := map[string][]string{"chmod": {"mode"}, "chown": {"uid", "gid"}, "chtimes": {"m", "a", "c"}}[op.K]
+		bf, af := fieldsOf(before[op.P]), fieldsOf(after[op.P])
+		for k, v := range bf {
+			ok := af[k] == v
+			for _, a := range allowed {
+				if a == k {
+					ok = true
+				}
+			}
+			if !ok {
+				x.fail("frame-self:"+op.K, "%s(%q) also changed %s: %s -> %s", op.K, op.P, k, v, af[k])
+				return
+			}
+		}
+		return
+	}
+	x.execOp(op)
+}
+
+func (x *e4Run) execOp(op e4Op) {
 	switch op.K {
 	case "mkdir":
 		err, ok := x.call("Mkdir", func() error { return x.fs.Mkdir(op.P) })
@@ -1041,6 +1130,9 @@ func (x *e4Run) exec(op e4Op) {
 			x.restore(op.P, old)
 			x.resync(op.P)
 			return
+		}
+		if mm := e4MetaStore[n]; mm != nil {
+			mm.timesSet = false // a content write may legitimately move the timestamps
 		}
 		if op.K == "create" && x.sawRemove {
 			x.createAfterRemove = true
